@@ -13,7 +13,7 @@ import FpgoVerif.Model.C10Core
     Case lines (`<kind>: op ; op ; …`, kinds `seq`, `sched`; `stress: k=v …`):
       s[@q][:a,b,…]  Subscribe on publisher q a subscription whose callback runs the script a,b,… :
                      n = subscribe a new (script-less) one, u0/u-1/u+1/… = Unsubscribe self / the id
-                     self-1 / self+1 …, p = nested Publish(v*100+self) (while fewer than 3 publishes of
+                     self-1 / self+1 …, p = nested Publish(v*1000+100*j+self), j = position of the action in the script, (while fewer than 3 publishes of
                      the harness are active on the goroutine and no handler is set)
       u[@q]:<id>  Unsubscribe      p[@q]:<v>  Publish      c[@q]  number of subscriptions
       m[@q]:<f>   Map(f) (a x+1, d 2x, z 0, i x, g -x) → next publisher index      h[@q]  SubscribeOn(new handler)
@@ -59,6 +59,7 @@ structure Backend (σ : Type) where
   pubBegin : σ → Nat → Int → σ
   next : σ → Nat → Option Nat → (Nat → Bool) → Option Nat
   curVal : σ → Nat → Int
+  more : σ → Nat → Bool      -- (oracle only) the innermost Publish of the goroutine still has snapshot members ahead
   deliver : σ → Nat → Nat → σ
   pubEnd : σ → Nat → σ
   cbReturn : σ → Nat → σ
@@ -98,6 +99,7 @@ def modelBackend (fixed : Bool) : Backend MSt where
     | some f => if f.k < f.h.len then some (readCell m.s.heap f.h f.k) else none
     | none => none
   curVal m t := match topPub m.s t with | some f => f.val | none => 0
+  more _ _ := false
   deliver m t _ := mact fixed m (.deliver t)
   pubEnd m t := mact fixed m (.pubEnd t)
   cbReturn m t := mact fixed m (.cbReturn t)
@@ -167,6 +169,9 @@ def idealBackend : Backend Ideal where
       | [] => hint
     | [] => none
   curVal s t := match s.frames t with | f :: _ => f.v | [] => 0
+  more s t := match s.frames t with
+    | f :: _ => f.snap.any (fun x => match f.dl.getLast? with | some y => decide (y < x) | none => true)
+    | [] => false
   deliver := Ideal.deliver
   pubEnd := Ideal.pubEnd
   cbReturn s _ := s
@@ -222,9 +227,15 @@ def micro (guided : Bool) (status : Char) (w : World σ) (t : Nat) (rel : Bool) 
   | .pubLoop q counted :: rest =>
     let s := getPub B w q
     let v := B.curVal s t
-    -- guided: the first not yet consumed observed delivery of this very Publish (publisher, value)
+    -- guided: the next observed delivery if it belongs to this very Publish (publisher, value).  Deliveries run
+    -- on a handler goroutine are printed after the direct ones, so with a handler the first matching one is taken.
+    let anyH := w.pubs.any B.handlerFlag
     let hint : Option Nat :=
-      if guided then (w.obs.find? (fun e => e.1 = q ∧ e.2.2.1 = v)).map (·.2.1) else none
+      if !guided then none
+      else if anyH then (w.obs.find? (fun e => e.1 = q ∧ e.2.2.1 = v)).map (·.2.1)
+      else match w.obs with
+        | (q', x, v', _) :: _ => if q' = q ∧ v' = v then some x else none
+        | [] => none
     let finish : World σ × Status :=
       let w := setPub w q (B.pubEnd s t)
       ({ w with ctl := upd w.ctl t rest }, .cont)
@@ -241,8 +252,10 @@ def micro (guided : Bool) (status : Char) (w : World σ) (t : Nat) (rel : Bool) 
       else ({ w with ctl := upd w.ctl t (.script q x v info.script :: .pubLoop q counted :: rest) }, .cont)
     | none =>
       if guided then
-        let outer := w.obs.any (matchesOuter rest)
-        if !outer && w.park t && status = 'P' then (w, .parked) else finish
+        -- no observed delivery left for this Publish.  A goroutine reported as parked stays in this loop only
+        -- if the op's observed deliveries are used up and snapshot members are still ahead (whether it then
+        -- delivers or skips them is decided at its next op); otherwise the loop is over and it runs on.
+        if w.obs.isEmpty && w.park t && status = 'P' && B.more s t then (w, .parked) else finish
       else finish
   | .script q _ _ [] :: rest =>
     let w := setPub w q (B.cbReturn (getPub B w q) t)
@@ -261,7 +274,9 @@ def micro (guided : Bool) (status : Char) (w : World σ) (t : Nat) (rel : Bool) 
       else (w, .cont)
     | .pub =>
       if depthOf base < 3 ∧ !B.handlerFlag s then
-        let w := setPub w q (B.pubBegin s t (v * 100 + self))
+        -- distinct values for distinct nested publishes: position of the action in the script, subscription id
+        let j := (infoOf w q self).script.length - as.length - 1
+        let w := setPub w q (B.pubBegin s t (v * 1000 + 100 * j + self))
         ({ w with ctl := upd w.ctl t (.pubLoop q true :: base) }, .cont)
       else (w, .cont)
     | .fwd q2 f =>
